@@ -38,3 +38,25 @@ Print Assumptions C01_class_never_separator.
 Theorem C01_tree_any_character : forall orbit cap w, sem orbit (enc_leaf cap true true (LTree false)) w.
 Proof. exact lone_tree_matches_everything. Qed.
 Print Assumptions C01_tree_any_character.
+
+(* ---- the main statement ------------------------------------------------------------------------------------------
+   For every token tree with valid class ranges and ordered bounds in which every tree wildcard is encoded for the
+   position it has in every expansion (decidable: [trees_exact]), the compiled program matches a text exactly when
+   the text belongs to the documented language: some choice of branches and some permitted numbers of iterations
+   give a flat sequence of leaves whose pieces match the text, tree wildcards by their flat position. *)
+From WaxProofs Require Import EncodeLang.
+
+Theorem C01_conformance :
+  forall orbit t w, wf_tok t = true -> trees_exact t = true -> (sem orbit (encode t) w <-> Lang orbit t w).
+Proof. exact conformance. Qed.
+Print Assumptions C01_conformance.
+
+(* the hypotheses are satisfiable by non-trivial trees: `a/**/{b,c}*<d:1,2>` *)
+Definition C01_example : tok :=
+  TCat (0, 0) [TLeaf (0, 0) (LLit false [97]); TLeaf (0, 0) (LTree true);
+               TAlt (0, 0) [TCat (0, 0) [TLeaf (0, 0) (LLit false [98])]; TCat (0, 0) [TLeaf (0, 0) (LLit true [99])]];
+               TLeaf (0, 0) (LZom false);
+               TRep (0, 0) (TCat (0, 0) [TLeaf (0, 0) (LLit false [100])]) 1 (Some 2)].
+Theorem C01_conformance_not_vacuous : wf_tok C01_example = true /\ trees_exact C01_example = true.
+Proof. split; vm_compute; reflexivity. Qed.
+Print Assumptions C01_conformance_not_vacuous.
